@@ -58,6 +58,11 @@ def plan(tier, seed):
         sc.append(("ring+self", n, rng.choice(stacks), n // 2, rng.choice([2, 3, 5])))
     for n in ([50, 100, 200, 400] + ([800, 1200] if tier == "thorough" else [])):
         sc.append(("clique", n, rng.choice(stacks), 0, 0))
+    # growth families: same shape at 4k / 16k / 64k (/ 256k) objects
+    for n in ([4000, 16000, 64000] + ([256000] if tier == "thorough" else [])):
+        sc.append(("star", n, 128, 0, 0))
+        sc.append(("ring+skip2", n, 128, 0, 0))
+        sc.append(("ring", n, 128, 2 * n, 0))
     # odd sizes drawn from the seed
     for _ in range(6 if tier == "quick" else 30):
         sc.append((rng.choice(["ring", "ring+self"]), rng.randrange(1, 50000), rng.choice(stacks), rng.randrange(0, 20000), rng.choice([0, 0, 2, 7])))
@@ -90,6 +95,36 @@ def check_c15(tier, seed, jobs):
         per_last = last["drop_us"] / (last["n"] + last["edges"])
         if per_last > 25 * per_first and per_last > 5.0:
             bad.append((last, ("nonlinear", "time-per-object-grows", f"time per object+adoption grew from {per_first:.3f}us at N={first['n']} to {per_last:.3f}us at N={last['n']}")))
+    # the same growth bound for the shape families whose worklist or in-degree grows
+    # with N (star, ring with i->i+2 chords, ring with 2N random chords): a trace that
+    # is quadratic only for such shapes leaves the visit counters unchanged
+    fams = {}
+    for j in results:
+        if "error" in j:
+            continue
+        key = None
+        if j["shape"] in ("star", "ring+skip2") and j["n"] in (4000, 16000, 64000, 256000):
+            key = j["shape"]
+        elif j["shape"] == "ring" and j.get("chords", 0) == 2 * j["n"] and j["n"] in (4000, 16000, 64000, 256000):
+            key = "ring+2N-chords"
+        if key:
+            fams.setdefault(key, []).append(j)
+    fam_ratios = {}
+    for key, js in fams.items():
+        js.sort(key=lambda j: j["n"])
+        if len(js) < 2:
+            continue
+        def per(j):
+            return max(j["drop_us"], 1) / (j["n"] + j["edges"])
+        ratio = per(js[-1]) / per(js[0])
+        fam_ratios[key] = [(j["n"], round(per(j), 4)) for j in js]
+        if not bad and ratio > 6 and per(js[-1]) > 2.0:
+            # re-measure alone before believing it (the scenarios above ran concurrently)
+            a = scale_child(js[0]["shape"], js[0]["n"], 128, js[0].get("chords", 0), 0, seed)
+            b = scale_child(js[-1]["shape"], js[-1]["n"], 128, js[-1].get("chords", 0), 0, seed)
+            if "error" not in a and "error" not in b and per(b) / per(a) > 6 and per(b) > 2.0:
+                b["growth_from"] = a["n"]
+                bad.append((b, ("nonlinear", "time-per-object-grows", f"{key}: time per object+adoption grew from {per(a):.3f}us at N={a['n']} to {per(b):.3f}us at N={b['n']} (x{per(b) / per(a):.1f}; linear work stays within x3, the bound is x6)")))
     distinct = len({(j.get("shape"), j.get("n"), j.get("chords"), j.get("selfsame_every"), j.get("stack_kb")) for j in results if "error" not in j and j["n"] >= 1000})
     coverage = {
         "evaluations": len(results),
@@ -99,6 +134,7 @@ def check_c15(tier, seed, jobs):
         "max_group": max((j.get("n", 0) for j in results if "error" not in j), default=0),
         "max_adoptions": max((j.get("edges", 0) for j in results if "error" not in j), default=0),
         "doubling_series_pops_and_us_per_object_plus_adoption": ratios,
+        "growth_families_us_per_object_plus_adoption": fam_ratios,
         "fault_counts_fired": {"small_stack": len(results)},
         "components": {"real": ["cactusref (built from /repo working tree with --cfg cactusref_verif)", "hashbrown", "rustc-hash", "system allocator"], "stub": ["payload value type"]},
         "exhaustive": False,
@@ -108,7 +144,7 @@ def check_c15(tier, seed, jobs):
         os.makedirs(D.REPLAYS, exist_ok=True)
         path = os.path.join(D.REPLAYS, f"C15-{j['shape']}-{j['n']}-{j.get('stack_kb')}.json")
         with open(path, "w") as f:
-            json.dump({"property": "C15", "engine": "scale", "kind": kind, "cause": cause, "shape": j["shape"], "n": j["n"], "stack_kb": j.get("stack_kb", 128), "chords": j.get("chords", 0), "selfsame_every": j.get("selfsame_every", 0), "seed": j.get("seed", seed), "expect": {"kind": kind, "cause": cause, "msg": msg}}, f, indent=1)
+            json.dump({"property": "C15", "engine": "scale", "kind": kind, "cause": cause, "growth_from": j.get("growth_from"), "shape": j["shape"], "n": j["n"], "stack_kb": j.get("stack_kb", 128), "chords": j.get("chords", 0), "selfsame_every": j.get("selfsame_every", 0), "seed": j.get("seed", seed), "expect": {"kind": kind, "cause": cause, "msg": msg}}, f, indent=1)
         D.write_evidence("C15", tier, seed, "exploration", coverage, time.time() - t0, len(bad))
         print(f"violation kind={kind} cause={cause} msg={msg}")
         print(f"VIOLATION property=C15 replay={path}")
@@ -129,6 +165,15 @@ def replay(rec, path, quiet=False):
     if rec.get("engine") == "scale":
         j = scale_child(rec["shape"], rec["n"], rec["stack_kb"], rec.get("chords", 0), rec.get("selfsame_every", 0), rec.get("seed", 1))
         v = judge_scale(j)
+        if not v and rec.get("growth_from"):
+            n0 = rec["growth_from"]
+            c0 = rec.get("chords", 0) * n0 // rec["n"]
+            a = scale_child(rec["shape"], n0, rec["stack_kb"], c0, rec.get("selfsame_every", 0), rec.get("seed", 1))
+            if "error" not in a:
+                pa = max(a["drop_us"], 1) / (a["n"] + a["edges"])
+                pb = max(j["drop_us"], 1) / (j["n"] + j["edges"])
+                if pb / pa > 6 and pb > 2.0:
+                    v = ("nonlinear", "time-per-object-grows", f"time per object+adoption grew from {pa:.3f}us at N={n0} to {pb:.3f}us at N={j['n']} (x{pb / pa:.1f})")
         if v:
             if not quiet:
                 print(f"violation kind={v[0]} cause={v[1]} msg={v[2]}")
